@@ -11,7 +11,8 @@ from vp.results import Ext
 PROPERTY = "C10"
 RULE = ("Hypothesis-generated (and, for short lengths, exhaustively enumerated) sequences of status() "
         "events over small alphabets of ids/route codes/statuses/tags/files/timestamps, fed to "
-        "StreamToDict, StreamSummary and StreamToExtendedDecorator and compared with a reference "
+        "StreamToDict, StreamSummary and StreamToExtendedDecorator (one after the other, or all three alive "
+        "at once and fed in lockstep; strings built at run time, never the interned literals) and compared with a reference "
         "segmentation model written from the property statement. Non-trivial: >=2 test ids "
         "interleaved (events of another key between first and last event of a key), or one id on two "
         "routes, or an id reused after a final status; distinct = distinct canonical event list.")
@@ -128,12 +129,28 @@ def run_case(spec):
                          tuple(sorted((n, b) for n, b in files.items() if b))),
                         {n: c.content_type for n, c in d["details"].items()}, len(d["timestamps"])))
     s2d = StreamToDict(on_test)
-    s2d.startTestRun()
-    n_before_stop = None
-    for ev, n in zip(events, npos):
-        send(s2d, ev, n)
-    n_before_stop = len(reports)
-    s2d.stopTestRun()
+    summ = StreamSummary()
+    ext = Ext()
+    s2e = StreamToExtendedDecorator(ext)
+    lockstep = spec.get("mode") == "lockstep"
+    if lockstep:
+        # the three consumers are alive at the same time and see every event in turn (as behind a
+        # CopyStreamResult): one consumer's bookkeeping must not leak into another's
+        for c in (s2d, summ, s2e):
+            c.startTestRun()
+        for ev, n in zip(events, npos):
+            for c in (s2d, summ, s2e):
+                send(c, ev, n)
+        n_before_stop = len(reports)
+        n_out_before = len([e for e in ext.events if e[0].startswith("add")])
+        for c in (s2d, summ, s2e):
+            c.stopTestRun()
+    else:
+        s2d.startTestRun()
+        for ev, n in zip(events, npos):
+            send(s2d, ev, n)
+        n_before_stop = len(reports)
+        s2d.stopTestRun()
     if n_before_stop != len(finals):
         vs.append(V("exactly-once", "StreamToDict-timing", "%d reports before stopTestRun, %d final statuses arrived" % (n_before_stop, len(finals))))
     _check_reports(vs, "StreamToDict", [r[0] for r in reports], finals, flushed)
@@ -146,11 +163,11 @@ def run_case(spec):
                 vs.append(V("report-content", "StreamToDict-timestamps-len", "timestamps has %d entries" % nts))
 
     # ---- StreamSummary
-    summ = StreamSummary()
-    summ.startTestRun()
-    for ev, n in zip(events, npos):
-        send(summ, ev, n)
-    summ.stopTestRun()
+    if not lockstep:
+        summ.startTestRun()
+        for ev, n in zip(events, npos):
+            send(summ, ev, n)
+        summ.stopTestRun()
     allrecs = finals + flushed
     counted = [r for r in allrecs if r["status"] != "exists"]
     if summ.testsRun != len(counted):
@@ -179,13 +196,12 @@ def run_case(spec):
         vs.append(V("summary", "wasSuccessful-false", "wasSuccessful() is False although no test failed"))
 
     # ---- StreamToExtendedDecorator
-    ext = Ext()
-    s2e = StreamToExtendedDecorator(ext)
-    s2e.startTestRun()
-    for ev, n in zip(events, npos):
-        send(s2e, ev, n)
-    n_out_before = len([e for e in ext.events if e[0].startswith("add")])
-    s2e.stopTestRun()
+    if not lockstep:
+        s2e.startTestRun()
+        for ev, n in zip(events, npos):
+            send(s2e, ev, n)
+        n_out_before = len([e for e in ext.events if e[0].startswith("add")])
+        s2e.stopTestRun()
     f2, x2 = reference([e for e in events if e["test_status"] != "exists"])
     brackets, cur = [], None
     shape_ok = True
@@ -269,7 +285,7 @@ def run_case(spec):
             interleaved = True
     nt = two_routes or reuse or interleaved
     labels = ["two-routes" if two_routes else "", "id-reuse" if reuse else "", "interleaved" if interleaved else "",
-              "has-incomplete" if flushed else "all-final", "has-files" if any(r["files"] for r in allrecs) else "no-files"]
+              "has-incomplete" if flushed else "all-final", "lockstep" if lockstep else "one-by-one", "has-files" if any(r["files"] for r in allrecs) else "no-files"]
     return Case(vs, nt, [l for l in labels if l], {"reports": [r[0][:2] for r in reports]})
 
 
@@ -321,7 +337,8 @@ def subchecks(tier):
     gen, k = _enum(2 if q else 3)
     gen4, k4 = _enum4()
     return [
-        Sub("random_streams", run_case, st.fixed_dictionaries({"events": EVENTS, "npos": NPOS}), 1200 if q else 150000),
+        Sub("random_streams", run_case, st.fixed_dictionaries({"events": EVENTS, "npos": NPOS, "mode": st.sampled_from(["one-by-one", "lockstep"])}),
+            1200 if q else 150000),
         Sub("long_attachments", run_case, enum=_enum_long, enum_complete=True,
             note="one or two tests with 1, 63, 64, 65, 66, 130 chunks of one attachment"),
         Sub("enumerated_streams", run_case, enum=gen, enum_complete=True,
